@@ -113,6 +113,10 @@ add("slash2", S("//"), [one('"//"')], "full")
 add("relpath", S("./a.py"), [one('"./a.py"')], "full")
 add("abspath", S("/etc/hosts"), [one('"/etc/hosts"')], "full")
 add("docpath", S("docs/x.md"), [one("docs/x.md"), one('"docs/x.md"')], "full")
+# ---- strings whose text is a JSON container
+add("sjl", S("[1, 2]"), [one('"[1, 2]"')], "full")
+add("sje", S("[]"), [one('"[]"')], "full")
+add("sjo", S("{U007B}}"), [one('"{}"')], "full")
 # ---- whitespace next to a line break inside a string
 add("nlsp", S("keeps its space {U000A}next"), [one('"keeps its space \\nnext"'), [("first", ["@TQ", '"""keeps its space ']), ("raw", ['next"""'])]], "core")
 add("nllead", S("a{U000A}  b"), [one('"a\\n  b"'), [("first", ["@TQ", '"""a']), ("raw", ['  b"""'])]], "full")
